@@ -101,6 +101,10 @@ func (e *env) runBlock(mode string, ops ...*op) {
 		if o.kind == "lock" && len(o.to) == 20 {
 			h, _ := util.Uint160DecodeBytesBE(o.to)
 			e.everLock[h] = true
+			if len(o.from) == 20 {
+				e.lockParent[h], _ = util.Uint160DecodeBytesBE(o.from)
+			}
+			e.lockUntil[h] = o.until
 		}
 	}
 	for _, o := range ops {
@@ -404,6 +408,11 @@ func (e *env) monitorC09(ops []*op, single bool) {
 		return
 	}
 	o := ops[0]
+	if o.kind == "lock" && o.onto != nil && o.r.Halted() {
+		to, _ := util.Uint160DecodeBytesBE(o.to)
+		now := e.chainBalance(to)
+		b.Violation(fmt.Sprintf("lock of %s onto account %s, which held %s, was accepted (it holds %s now): one record cannot keep two locks, or a lock and a plain balance, apart — what was there is either lost or follows the wrong expiry and owner", o.amount, to.StringLE(), o.onto, now), e.detail(ops, nil))
+	}
 	if (o.r.Faulted() || o.r.Rejected != "") && !o.r.Diff.Empty() {
 		b.Violation("failed invocation changed storage", e.detail(ops, nil))
 	}
